@@ -21,7 +21,8 @@ def walk(prog, obs):
     """yields (i, op, o, dumps-before) with dumps = variable -> dump of every value produced so far"""
     dumps = {}
     for i, (op, o) in enumerate(zip(prog['ops'], obs)):
-        yield i, op, o, dumps
+        if not o.get('skipped'):       # an operation whose operand never came to exist was not run: nothing to judge
+            yield i, op, o, dumps
         if o['ok']:
             for v, x in o['out']:
                 dumps[v] = x
@@ -69,7 +70,8 @@ def c02(prog, obs, impl):
             if not close(m0 - m1, l, atol + m0 * F(1, 10**9)):
                 fails.append((i, f"source loses {float(m0 - m1)!r} {b}, requested {float(l)!r} {b} ({dsl.qty_str(op['q'])})"))
             # uniform aliquot: the same fraction of every substance
-            fr = [(w0['cont'][s] - w1['cont'].get(s, F(0))) / w0['cont'][s] for s in w0['cont'] if w0['cont'][s] > F(1, 10**4)]
+            # (amounts are rounded to 1e-10 storage units: a fraction of less than 0.01 umol is known to 1e-8 at best, per well drawn)
+            fr = [(w0['cont'][s] - w1['cont'].get(s, F(0))) / w0['cont'][s] for s in w0['cont'] if w0['cont'][s] > F(1, 10**2)]
             if fr and max(fr) - min(fr) > F(1, 10**6):
                 fails.append((i, f"aliquot is not uniform: fractions {[float(x) for x in fr]}"))
         for w0, w1, g in zip(D0, D1, gain):
